@@ -263,6 +263,8 @@ func cmdCheck(args []string) int {
 		results = append(results, res)
 		if verbose {
 			printResult(res)
+		} else if os.Getenv("GOSMT_PROGRESS") != "" {
+			fmt.Fprintf(os.Stderr, "progress %s %v paths=%d wall=%.0fs incomplete=%d\n", h.Name, h.Params, res.Paths, res.Wall.Seconds(), len(res.Incomplete))
 		}
 	}
 	rc := finish(eng, ev, *prop, *tier, seed, results, rp, t0)
